@@ -6,7 +6,7 @@ from .. import gen, lib, ref
 from ..lib import call
 
 PROP = "C17"
-PLAN = {"quick": (2400, 300), "thorough": (40000, 3000)}
+PLAN = {"quick": (2400, 300), "thorough": (224 * 224 + 30000, 3000)}
 RULE = ("case = pair of knot vectors on a common interval: equal / different degrees x shared / distinct interior knots x "
         "multiplicities (and pairs on different intervals); on KnotVector and heavy.ImmutableKnotVector, in place and "
         "not. Oracle: continuity-class formula; independently, every B-spline of U and of V is exactly representable on "
@@ -17,7 +17,35 @@ MIN_COUNTERS = {"unions": 300, "intersections": 100, "representability_checks": 
 ASSUMPTIONS = ["intersection is judged for equal degrees only (as the statement says)"]
 
 
+_GRID = None
+
+
+def grid_vectors():
+    """every clamped vector of degree <= 3 on [0,1] whose interior knots are a subset of {1/4,1/2,3/4}: 224 vectors"""
+    global _GRID
+    if _GRID is None:
+        import itertools
+
+        out = []
+        for p in range(4):
+            for mults in itertools.product(range(p + 2), repeat=3):
+                U = [F(0)] * (p + 1)
+                for k, m in zip((F(1, 4), F(1, 2), F(3, 4)), mults):
+                    U += [k] * m
+                U += [F(1)] * (p + 1)
+                out.append(U)
+        _GRID = out
+    return _GRID
+
+
+ENUMERATED = {"thorough": (224 * 224, "all ordered pairs of the 224 clamped vectors of degree <= 3 on [0,1] with interior knots in {1/4,1/2,3/4} (any multiplicities)"),
+              "quick": (0, "none (random pairs only)")}
+
+
 def gen_case(rng, idx, tier):
+    if tier == "thorough" and idx < 224 * 224:
+        G = grid_vectors()
+        return {"U": lib.enc(G[idx // 224]), "V": lib.enc(G[idx % 224]), "numtype": "frac", "rel": "grid", "shifted": False, "check_min": idx % 37 == 0, "light": idx % 37 != 0}
     nt = rng.choice(["frac", "frac", "float", "int"])
     if nt == "int":
         U = gen.integer_kv(rng, pmax=3, nintmax=3)
@@ -103,7 +131,9 @@ def run_case(case, ctx):
     ctx.check(o.ok and as_list(o) == Uq, "union:not-idempotent", f"U|U = {lib.short(as_list(o)) if o.ok else o.brief()}")
     # independent of the formula: representability and minimality on the library's own result
     o = results["U|V"]
-    if o.ok and ref.wellformed(as_list(o)) is not None:
+    if case.get("light"):
+        pass  # enumerated pair: formula, commutativity, idempotence, operands; representability on every 37th pair
+    elif o.ok and ref.wellformed(as_list(o)) is not None:
         got = as_list(o)
         ctx.count("representability_checks")
         okrep = all(ref.represent_curve(e, got) is not None for X in (Uq, Vq) for e in unit_splines(X)) if (got[0], got[-1]) == (Uq[0], Uq[-1]) else False
